@@ -166,11 +166,9 @@ def reapWait (pid : Nat) : Nat → M (Option (Option Nat))
 
 def spinLimit : Nat := 20000
 
-/-- `Watcher.reap_process(pid, status=None)` (before_reap / after_reap hooks are not scripted) -/
-def reapProcess (uid pid : Nat) (status : Option Nat) : M Unit := do
-  let w ← getW uid
-  if !w.pids.contains pid then pure () else
-  popPid uid pid
+/-- `reap_process` after the entry has been popped: wait for the process (unless the status is
+    already known), publish the `reap` event, `Process.stop()` -/
+def reapTail (uid pid : Nat) (status : Option Nat) : M Unit := do
   let st : Option (Option Nat) ← match status with
     | some s => pure (some (some s))
     | none => reapWait pid spinLimit
@@ -185,6 +183,13 @@ def reapProcess (uid pid : Nat) (status : Option Nat) : M Unit := do
     let ps ← procStatus pid
     if isDead ps then objStop pid
     notify uid "reap" (some pid) (toString (exitCodeOf s))
+
+/-- `Watcher.reap_process(pid, status=None)` (before_reap / after_reap hooks are not scripted) -/
+def reapProcess (uid pid : Nat) (status : Option Nat) : M Unit := do
+  let w ← getW uid
+  if !w.pids.contains pid then pure () else
+  popPid uid pid
+  reapTail uid pid status
 
 /-- `Watcher.reap_processes` -/
 def reapProcesses (uid : Nat) : M Unit := do
